@@ -64,7 +64,7 @@ KeptChoices(s, d, r, role, FD) ==
 (* compareCurrentPodWithNewPod *)
 
 SettingsFor(s, d, n) ==
-    { x \in SeqToSet(s.settings) : x.ns = d.ns /\ x.ref = d.name /\ x.status = "valid" /\ x.sel # "" /\ HasNode(s, n) /\ x.sel = NodeOf(s, n).slabel }
+    { x \in SeqToSet(s.settings) : x.ns = d.ns /\ x.ref = d.name /\ x.status = "valid" /\ SetMatches(s, x, n) }
 
 OverrideValid(s, n) == HasNode(s, n) /\ NodeOf(s, n).override \in {"r1", "r2", "r3"}
 
